@@ -140,9 +140,16 @@ class C06(Check):
                 names = ['T%d' % i for i in range(n)]
                 order = list(names)
                 sch.shuffle(order)
-                ops.append({'op': 'conc', 'reqs': [{'path': rng.choice(R.PATHS), 'method': rng.choice(R.METHODS[:5])} for _ in range(n)],
+                # (the clients of one batch ask for two paths between them: whatever is remembered per route about "the last
+                # path" is fought over)
+                pool = rng.sample(R.PATHS, 2)
+                ops.append({'op': 'conc', 'reqs': [{'path': rng.choice(pool), 'method': rng.choice(R.METHODS[:5])} for _ in range(n)],
                             'granularity': gran, 'order': order,
                             'preempts': sorted([sch.randint(1, hi), sch.choice(['demote'] + names)] for _ in range(sch.randint(1, 6)))})
+                if sch.random() < 0.5:
+                    # function-focused: the clients are parked inside the functions every candidate route goes through
+                    ops[-1]['hot_funcs'] = sch.sample(['match_path', 'match_method', 'dispatch', 'execute', 'update_methods', 'add_exception'], sch.choice([1, 2]))
+                    ops[-1]['hot_bits'] = [1 if sch.random() < 0.35 else 0 for _ in range(80)]
             else:
                 ops.append({'op': 'req', 'path': rng.choice(R.PATHS), 'method': rng.choice(R.METHODS)})
                 if rng.random() < 0.15:
@@ -238,7 +245,8 @@ class C06(Check):
                 tasks = {}
                 for i, rq in enumerate(op['reqs']):
                     tasks['T%d' % i] = (lambda i=i, rq=rq: got.__setitem__(i, call_app(app, env_for(rq['method'], rq['path'], step + i), validate=False)))
-                sched = BatonScheduler(op.get('order', sorted(tasks)), op.get('preempts', []), op.get('granularity', 'line'), WATCH)
+                sched = BatonScheduler(op.get('order', sorted(tasks)), op.get('preempts', []), op.get('granularity', 'line'), WATCH,
+                                       hot_funcs=op.get('hot_funcs'), hot_bits=op.get('hot_bits'))
                 sched.run(tasks)
                 res.fire('preempt', len(sched.switches))
                 res.probe('concurrent-requests')
